@@ -232,6 +232,7 @@ var variables = []string{
 	"", "client.ipx", "client", "Client.ip", "client.ip ", " client.ip", "request.hostx", "request.host.", "request",
 	"request.header.", "request.header", "Request.Header.X", "request.headers.X", "client.ip\x00", "request.header..",
 	"request.header. ", "request.header.request.header.",
+	"client.request.header.X", " request.header.X", "xrequest.header.X-Api-Key", "client.ip,request.header.X", "request.host request.header.X",
 }
 
 func genVar(rng *rand.Rand) string {
